@@ -456,6 +456,19 @@ func paramNames(fn *ssa.Function) []string {
 // ghostClauseRE: ghost functions whose meaning is tied to the execution of the function under verification
 var ghostClauseRE = regexp.MustCompile(`\b(calls|returns|lastresult|deferred|exitedloop|visitedloop|atloop|heapatloop)\(`)
 
+// topConjuncts: the conjuncts of an expression at the top level (through parentheses and &&)
+func topConjuncts(e ast.Expr) []ast.Expr {
+	switch n := e.(type) {
+	case *ast.ParenExpr:
+		return topConjuncts(n.X)
+	case *ast.BinaryExpr:
+		if n.Op == token.LAND {
+			return append(topConjuncts(n.X), topConjuncts(n.Y)...)
+		}
+	}
+	return []ast.Expr{e}
+}
+
 // stripGhost weakens a callee postcondition for use at a call site: conjuncts (at the top level and in the
 // consequent of an implication) that mention ghost functions tied to the callee's own execution are dropped;
 // what remains is implied by the original clause. nil: nothing remains.
@@ -616,7 +629,51 @@ func (x *Exec) applyContractSig(st *State, fr *Frame, fc *FuncContract, sig *typ
 		}
 		postVars[fmt.Sprintf("result%d", i)] = v
 	}
-	if len(vals) > 0 {
+	// a postcondition `result == p` (a conjunct at the top level) where the argument passed for p points to a
+	// local cell of the caller: a symbolic heap pointer can never equal a cell pointer, so the clause would read
+	// as false and silently end the path. The result IS the argument.
+	for _, e := range fc.Ensures {
+		if e.When == "panic" {
+			continue
+		}
+		for _, cj := range topConjuncts(e.Expr) {
+			be, ok := cj.(*ast.BinaryExpr)
+			if !ok || be.Op != token.EQL {
+				continue
+			}
+			l, lok := be.X.(*ast.Ident)
+			r, rok := be.Y.(*ast.Ident)
+			if !lok || !rok {
+				continue
+			}
+			if r.Name == "result" || strings.HasPrefix(r.Name, "result") && len(r.Name) == 7 {
+				l, r = r, l
+			}
+			idx := -1
+			if l.Name == "result" {
+				idx = 0
+			} else if strings.HasPrefix(l.Name, "result") && len(l.Name) == 7 && l.Name[6] >= '0' && l.Name[6] <= '9' {
+				idx = int(l.Name[6] - '0')
+			}
+			if idx < 0 || idx >= len(vals) {
+				continue
+			}
+			if a, ok := vars[r.Name].(Ptr); ok && a.Cell != nil {
+				vals[idx] = a
+				postVars[l.Name] = a
+				postVars[fmt.Sprintf("result%d", idx)] = a
+				if idx == 0 {
+					postVars["result"] = a
+				}
+				if n := res.At(idx).Name(); n != "" && n != "_" {
+					postVars[n] = a
+				}
+			}
+		}
+	}
+	if len(vals) > 0 && postVars["result"] == nil {
+		postVars["result"] = vals[0]
+	} else if len(vals) > 0 {
 		postVars["result"] = vals[0]
 	}
 	if fc.Functional {
@@ -635,7 +692,7 @@ func (x *Exec) applyContractSig(st *State, fr *Frame, fc *FuncContract, sig *typ
 	// the path silently and discharge everything after it. For the first applications of every callee the
 	// path is probed before and after the postconditions are assumed.
 	guard := false
-	if !x.sess.dry && len(fc.Ensures) > 0 && in != nil && os.Getenv("GOVC_NOENSGUARD") == "" {
+	if !x.sess.dry && len(fc.Ensures) > 0 && in != nil && os.Getenv("GOVC_NOENSGUARD") == "" && fc.Opts["maypanic"] != "true" {
 		if x.ensGuard == nil {
 			x.ensGuard = map[string]int{}
 		}
@@ -671,6 +728,9 @@ func (x *Exec) applyContractSig(st *State, fr *Frame, fc *FuncContract, sig *typ
 		name := fmt.Sprintf("%s/call(%s)@%s/ensures-consistent", x.fnDisplay(fr), fc.Key, x.callOrd(fr, in))
 		o := x.oblig(name, "vacuity", x.propsFor(fr, &Clause{}), pos, "the postconditions of "+fc.Key+" contradict the path at this call site (the path would end silently)")
 		o.Kind = "vacuity"
+		if d := os.Getenv("GOVC_DUMPVAC"); d != "" {
+			os.WriteFile(d, []byte(x.sess.Dump()+"(check-sat)\n"), 0o644)
+		}
 		if len(o.Failures) == 0 {
 			o.Failures = append(o.Failures, &Failure{Status: "contradictory-callee-contract", Trace: append([]string(nil), st.trace...)})
 		}
